@@ -134,7 +134,10 @@ def run_case(case):
     form = case['form']
     cov = {'mesh_checked:' + cls + ':' + form: 1}
     if form == 'faces':
-        faces, meta = gen.gen_grid(rng, cls, nmin=1, nmax=case.get('nmax', 6), family=case.get('family'))
+        gfam, gopts = gen.geo_opts(rng, case.get('geo'))
+        faces, meta = gen.gen_grid(rng, cls, nmin=1 if not case.get('geo') else 2, nmax=case.get('nmax', 6), family=gfam or case.get('family'), opts=gopts)
+        if case.get('geo'):
+            cov['geo:' + case['geo']] = 1
         m = gen.build_mesh(pf, cls, faces)
         bad = check_mesh(m, cls, faces, 'faces')
         polekind = ''
@@ -196,6 +199,9 @@ def plan(tier, seed):
                 fam = gen.FAMILIES[i % 5] if form == 'faces' and i % 2 == 0 else None
                 cases.append({'cls': cls, 'form': form, 'seed': [seed, 10, idx, i], 'family': fam,
                               'nmax': 6 if tier == 'quick' else 12})
+                if form == 'faces' and i % 4 == 0:     # tiny / huge length units and almost-uniform spacing
+                    cases.append({'cls': cls, 'form': form, 'seed': [seed, 10, idx, 100000 + i], 'family': None, 'geo': ['nano', 'jitter', 'mega'][(i // 4) % 3],
+                                  'nmax': 6 if tier == 'quick' else 12})
             idx += 1
             step = 100 if NDIM[cls] < 3 else 50
             for j in range(0, len(cases), step):
@@ -206,6 +212,9 @@ def plan(tier, seed):
 def floors(agg, tier):
     need = 30 if tier == 'quick' else 1000
     out = []
+    for geo in ('nano', 'jitter', 'mega'):
+        if agg['cov'].get('geo:' + geo, 0) < 20:
+            out.append('geo:%s < 20' % geo)
     for cls in CLASSES:
         for form in ('faces', 'NL'):
             if agg['cov'].get('mesh_checked:%s:%s' % (cls, form), 0) < need:
